@@ -437,6 +437,9 @@ func jpfAvg(arguments []interface{}) (interface{}, error) {
 	// We've already type checked the value so we can safely use
 	// type assertions.
 	args := arguments[0].([]interface{})
+	if len(args) == 0 {
+		return nil, nil
+	}
 	length := float64(len(args))
 	numerator := 0.0
 	for _, n := range args {
@@ -816,6 +819,9 @@ func jpfToNumber(arguments []interface{}) (interface{}, error) {
 	if v, ok := arg.(string); ok {
 		conv, err := strconv.ParseFloat(v, 64)
 		if err != nil {
+			return nil, nil
+		}
+		if math.IsNaN(conv) || math.IsInf(conv, 0) {
 			return nil, nil
 		}
 		return conv, nil
